@@ -1,7 +1,7 @@
 from typing import List
 import numpy as np
 
-from ...units import Unit, UnitEnvironment
+from ...units import Quantity, Unit, UnitEnvironment
 from .node_base import BaseNode
 from .node_select import SelectNode
 from ..datatypes import IntegerType,FloatType
@@ -53,7 +53,10 @@ class IntegerNode(BaseNode, SelectNode):
                 self.value_raw = s.solve(self.value_fn, self.units_raw)
         if self.value_expr: # Process expression
             with NumericalSolver(env) as s:
-                self.value_raw = np.round(s.solve(self.value_expr, self.units_raw))
+                self.value_raw = s.solve(self.value_expr, self.units_raw)
+                if isinstance(self.value_raw, Quantity): # no units requested: the result has to be a plain number
+                    self.value_raw = self.value_raw.to(None).value()
+                self.value_raw = np.round(self.value_raw)
         # Testing validity of units
         if self.units_raw:
             with UnitEnvironment(env.units):
